@@ -50,6 +50,37 @@ func (c *Ctx) requestedModes(fn *ssa.Function) []core.VPred {
 		ld := isLoadOfCell(cells[0])
 		res := callee.Signature.Results()
 		for i := 0; i < res.Len(); i++ {
+			// a verdict struct with a mode field holding the parsed cell's content
+			if st, ok := res.At(i).Type().Underlying().(*types.Struct); ok {
+				for fi := 0; fi < st.NumFields(); fi++ {
+					if !isModeType(st.Field(fi).Type()) {
+						continue
+					}
+					vals, _, okv := core.ReturnedFieldValues(callee, i, fi)
+					good := okv && len(vals) > 0
+					for _, v := range vals {
+						if _, isK := v.(*ssa.Const); isK {
+							continue
+						}
+						if !core.Derives(v, ld, true) {
+							good = false
+						}
+					}
+					if !good {
+						continue
+					}
+					idx, fld := i, fi
+					out = append(out, func(v ssa.Value) bool {
+						v = core.Strip(v)
+						if ld(v) {
+							return true // inside the helper: the cell itself
+						}
+						cl, ri, path, ok := core.ResultComponent(v)
+						return ok && cl == call && ri == idx && len(path) == 1 && path[0] == fld
+					})
+				}
+				continue
+			}
 			if !isModeType(res.At(i).Type()) {
 				continue
 			}
